@@ -489,6 +489,16 @@ class PE(object):
       if t != "__name__ == '__main__'":
         self.exec_stmt(st, [g], module)
 
+  def class_attr_value(self, owner, name, expr):
+    """A class-level attribute is evaluated once, when the class body runs:
+    a mutable value (a dict used as a cache, a list) is one object shared
+    by the class and all its instances."""
+    memo = self.__dict__.setdefault("_class_attr_vals", {})
+    key = (id(owner), name)
+    if key not in memo:
+      memo[key] = self.eval(expr, [{}], owner.module)
+    return memo[key]
+
   def _bind_defaults(self, f, frames, module):
     """Positional defaults of a nested def / lambda are evaluated when the
     function object is created (the `lambda x, k=k:` idiom in a loop)."""
@@ -556,7 +566,18 @@ class PE(object):
     elif isinstance(st, ast.AugAssign):
       cur = self.eval(_as_load(st.target), frames, module)
       val = self.eval(st.value, frames, module)
-      self.assign(st.target, self.binop(st.op, cur, val), frames, module)
+      if isinstance(st.op, ast.Add) and type(cur) is list and isinstance(
+          val, (list, tuple)):
+        # list += iterable extends the SAME list object (every other
+        # reference to it sees the new entries)
+        cur.extend(val)
+        self.assign(st.target, cur, frames, module)
+      elif isinstance(st.op, ast.BitOr) and type(cur) is dict and \
+          isinstance(val, dict):
+        cur.update(val)
+        self.assign(st.target, cur, frames, module)
+      else:
+        self.assign(st.target, self.binop(st.op, cur, val), frames, module)
     elif isinstance(st, ast.Return):
       raise _Return(self.eval(st.value, frames, module)
                     if st.value is not None else None)
@@ -747,7 +768,7 @@ class PE(object):
         return f
       owner, expr = obj.cls.find_class_attr(name)
       if expr is not None:
-        return self.eval(expr, [{}], owner.module)
+        return self.class_attr_value(owner, name, expr)
       if name == "__class__":
         return ClassRef(obj.cls)
       raise PyRaise("AttributeError", "%s has no attribute %s" %
@@ -783,7 +804,7 @@ class PE(object):
         return f
       owner, expr = obj.cls.find_class_attr(name)
       if expr is not None:
-        return self.eval(expr, [{}], owner.module)
+        return self.class_attr_value(owner, name, expr)
       if name == "__name__":
         return obj.cls.name
       if "<external-super>." + name in (getattr(self, "ext_overrides", None)
